@@ -1,0 +1,6 @@
+// +build verif
+
+package stackinit
+
+// verifSkipInit: verification builds bring their own stack (no TAP device at import time).
+func verifSkipInit() bool { return true }
